@@ -391,6 +391,11 @@ func (e *Enc) typingFact(t types.Type, v Term, alloc Term) Term {
 		if alloc.S != "" {
 			return tLt(v, alloc)
 		}
+	case *types.Interface:
+		// the object an interface value points to exists already
+		if alloc.S != "" {
+			return tLt(app(SInt, "ifacepl", v), alloc)
+		}
 	}
 	return tTrue
 }
@@ -724,7 +729,8 @@ func (e *Enc) ghostFnComp(g *SpecFunc, c *SpecCtx) (*Comp, []types.Type, types.T
 	for i := len(pts) - 1; i >= 0; i-- {
 		srt = arrSort(sortOf(pts[i]), srt)
 	}
-	cp := e.comp(name, srt, nil, false)
+	// ghost functions declared by repository contract files are not changed by external code
+	cp := e.comp(name, srt, nil, g.PkgPath != "")
 	if len(pts) == 0 {
 		cp.Scalar = true
 	} else if _, isIface := pts[0].Underlying().(*types.Interface); isIface {
